@@ -16,6 +16,7 @@ import (
 	"math/rand"
 	"net"
 	"os"
+	"runtime"
 	"sort"
 	"strings"
 	"sync"
@@ -116,6 +117,9 @@ func vfC17InstallRouter() {
 			if !ok {
 				return
 			}
+			if point == "p_close" && p.session.ctx.Err() != nil && !p.session.Closed() {
+				d.run.tr.Emit("h_ctx_cancelled_before_pool_close", "obj", d.run.tr.ObjID(p), "a", 0, "size", p.size)
+			}
 			d.run.tr.Emit(point, "obj", d.run.tr.ObjID(p), "a", a, "size", p.size)
 		}
 		vfDefault.Store(sc)
@@ -198,6 +202,12 @@ func vfC17DriverGoroutines() []string {
 	return out
 }
 
+func vfC17CurGoroutineID() string {
+	buf := make([]byte, 64)
+	n := runtime.Stack(buf, false)
+	return vfC17GoroutineID(string(buf[:n]))
+}
+
 func vfC17GoroutineID(g string) string {
 	g = strings.TrimPrefix(g, "goroutine ")
 	if i := strings.Index(g, " "); i > 0 {
@@ -264,6 +274,8 @@ type vfC17SessResult struct {
 	plan     string
 	leakDump string
 	rescued  bool
+	leak     string
+	stuck    string
 }
 
 func (r *vfC17Run) records(sched int, end vfC17Rec) []vfC17Rec {
@@ -329,6 +341,9 @@ func vfC17HangSig(dump string, s *Session) string {
 // property speaks about.
 func (r *vfC17Run) closeAndObserve(sched int, plan string, closers func()) vfC17SessResult {
 	res := vfC17SessResult{plan: plan}
+	r.tr.Emit("h_close_start", "obj", 0, "a", 0)
+	evs := r.tr.Events()
+	closeStart := evs[len(evs)-1]["seq"].(int64)
 	ok, dump := vfWithin(vfC17CloseWatchdog, closers)
 	end := vfC17Rec{Sched: sched, Ev: "s_end", Size: r.numConns, Conns: []int{}, Open: []int{}, Dead: []int{}, Q: "none"}
 	if !ok {
@@ -360,6 +375,43 @@ func (r *vfC17Run) closeAndObserve(sched int, plan string, closers func()) vfC17
 	// every dialed connection is closed within a bounded wait
 	vfC17Poll(2*time.Second, func() bool { return len(r.openConns()) == 0 })
 	end.Open = r.openConns()
+	if len(end.Open) > 0 {
+		// which mechanism left them open (selects the key of the finding, not the verdict)
+		res.leak = "unclassified"
+		r.sess.pool.mu.RLock()
+		var left []*hostConnPool
+		for _, p := range r.sess.pool.hostConnPools {
+			left = append(left, p)
+		}
+		r.sess.pool.mu.RUnlock()
+		if len(left) > 0 {
+			// pools still registered: were they all created after Close had started?
+			late := true
+			first := map[int]int64{}
+			for _, e := range r.tr.Events() {
+				obj, _ := e["obj"].(int)
+				if _, ok := first[obj]; !ok && obj != 0 {
+					first[obj] = e["seq"].(int64)
+				}
+			}
+			for _, p := range left {
+				if sq, ok := first[r.tr.ObjID(p)]; !ok || sq <= closeStart {
+					late = false
+				}
+			}
+			if late {
+				res.leak = "pool-added-during-close"
+			} else {
+				res.leak = "pool-not-closed"
+			}
+		} else if r.sess.control != nil {
+			if ch := r.sess.control.getConn(); ch != nil && ch.conn != nil {
+				if mc, ok := ch.conn.conn.(*vfMemConn); ok && !mc.IsClosed() {
+					res.leak = "control-conn-open"
+				}
+			}
+		}
+	}
 	res.recs = r.records(sched, end)
 	return res
 }
@@ -383,6 +435,7 @@ func (r *vfC17Run) queryBurst(rng *rand.Rand, wg *sync.WaitGroup, n int, stop *i
 
 // one seeded random run
 func vfC17RandomRun(seed int64, sched int) (res vfC17SessResult, err error) {
+	gid := vfC17CurGoroutineID()
 	rng := rand.New(rand.NewSource(seed))
 	nNodes := 2 + rng.Intn(2)
 	numConns := 1 + rng.Intn(3)
@@ -496,6 +549,31 @@ func vfC17RandomRun(seed int64, sched int) (res vfC17SessResult, err error) {
 		okw, dump := vfWithin(vfC17CloseWatchdog, wg.Wait)
 		if !okw {
 			res.leakDump = dump
+			// which calls of this run never returned: the first driver frame of the goroutines this
+			// run's goroutine started
+			me := " in goroutine " + gid + "\n"
+			funcs := map[string]bool{}
+			for _, g := range strings.Split(dump, "\n\n") {
+				if !strings.Contains(g+"\n", me) {
+					continue
+				}
+				for _, line := range strings.Split(g, "\n") {
+					if strings.HasPrefix(line, "github.com/gocql/gocql.") && !vfC17IsHarnessFunc(line) {
+						f := strings.TrimPrefix(line, "github.com/gocql/gocql.")
+						if i := strings.LastIndex(f, "("); i > 0 {
+							f = f[:i]
+						}
+						funcs[strings.NewReplacer("(*", "", ")", "").Replace(f)] = true
+						break
+					}
+				}
+			}
+			var fl []string
+			for f := range funcs {
+				fl = append(fl, f)
+			}
+			sort.Strings(fl)
+			res.stuck = strings.Join(fl, ",")
 			last := &res.recs[len(res.recs)-1]
 			if last.Q == "session-closed" {
 				last.Q = "caller-stuck"
@@ -554,7 +632,7 @@ func TestVfC17Sessions(t *testing.T) {
 					hung = true
 				}
 				info.Write(map[string]interface{}{"sched": sched, "plan": res.plan, "hang": res.hang, "sig": res.hangSig,
-					"dump": res.dump, "callers": res.leakDump})
+					"dump": res.dump, "callers": res.leakDump, "leak": res.leak, "stuck": res.stuck})
 			}(sched)
 		}
 		wg.Wait()
